@@ -439,9 +439,26 @@ def r80(F):
             errs = {bb for bb, j, pl, rv, m in fn.assigns() if pl["l"] == 0 and not pl["p"] and rv["k"] == "agg" and rv.get("variant") == "Err"}
             ops = sorted(c[0] for c in cmps)
             if not cmps:
-                # `arg_length.cmp(&arity)` matched on Ordering, or a helper: another spelling of the comparison
-                o_cmp = [cb for cb, ct in fn.calls() if callee(ct).endswith("::cmp") and any(("field", "bindings") in o.at(a, cb) for a in ct["args"])]
-                need(not o_cmp, "op_fcall compares the argument count with the arity through Ord::cmp: the Less / Greater edges are not read by this rule")
+                # `arg_length.cmp(&arity)` matched on Ordering: decided by evaluation - with the comparison answering Less or
+                # Greater the call is not entered and the handler returns an error, with Equal the call is entered
+                o_cmp = [(cb, ct) for cb, ct in fn.calls() if callee(ct).endswith("::cmp") and any(("field", "bindings") in o.at(a, cb) for a in ct["args"])]
+                if o_cmp:
+                    from .. import absint as AI
+                    cname = callee(o_cmp[0][1])
+                    def outcome(ordv):
+                        """can a path on which the comparison answered `ordv` end in anything but Err?"""
+                        sim = AI.Sim(F, site=(fn.name, o_cmp[0][0]), forced=("e", "core::cmp::Ordering", ordv, ()), opaque={VM + "fcall_impl"})
+                        try:
+                            res = sim.run(fn, [AI.U] * fn.nargs)
+                        except AI.Lossy as e:
+                            need(False, "op_fcall: %s" % e)
+                        fired = [v for f_, v, o_ in res if f_]
+                        need(fired, "op_fcall: no outcome after the comparison of the argument count")
+                        return any(not (v[0] == "e" and v[2] == "Err") for v in fired)
+                    okc = outcome("Equal") and not outcome("Less") and not outcome("Greater")
+                    r.inst("op_fcall->fcall_impl", fn.where(b), okc, "too many / too few arguments are errors before the call (Ordering match)" if okc else
+                           "op_fcall calls the function without comparing the argument count with its arity")
+                    continue
             ok = ops in (["Gt", "Lt"], ["Ne"])
             for op, l, bb in cmps:
                 for sb, ft, tt in util.bool_switches(fn, l):
